@@ -91,6 +91,12 @@ def run(ctx):
     # daemon level
     fmc = flowcheck.model_check("C02f", ctx.tier)
     specs = daemon_specs(ctx.tier, ctx.seed)
+    # an attempt that fails once the key pair exists (finalize, last polls, download), then a fault-free attempt IN THE SAME PROCESS:
+    # the attempt reported successful must leave the key of its own CSR on disk, whatever the failed one left in memory
+    fcert = simple_cert("f1", ids=[{"dns": "a.example.org", "challenge": "http-01"}])
+    pos, _ = flows.baseline_positions("C02/base", [flowcheck.prepare(dict(certs=[fcert]))["certs"][0]])
+    late = [p for p in pos if p[0] in ("finalize", "order", "cert")]
+    specs += flows.single_fault_specs("C02r", fcert, late, ctx.tier, ctx.seed + 2, attempts=2, quick_stride=4)
     results = flows.run_many(specs, workers=12)
     for x in results:
         if any(y["hung"] for y in x["runs"]):
